@@ -135,17 +135,20 @@ func buildBasic(fs []ingest.Feature, cores int) (b6.World, error) {
 // compact builds reserve ~80 MB per goroutine (maxEncodedFeatureSize) and take 15-30 s under the race
 // detector: compact workloads draw their feature set from a small pool (compactSpec) and the worker keeps the
 // worlds it has built
-var compactCache = map[uint64]b6.World{}
+var compactCache = map[uint64][]byte{}
 
+// sharedCompact returns a FRESH world (empty caches) over the index built once per feature set
 func sharedCompact(sp Spec, fs []ingest.Feature) (b6.World, error) {
-	if w, ok := compactCache[sp.Seed]; ok {
-		return w, nil
+	idx, ok := compactCache[sp.Seed]
+	if !ok {
+		var err error
+		idx, err = compact.BuildInMemory(cloneAll(fs), &compact.Options{Goroutines: 2, PointsScratchOutputType: compact.OutputTypeMemory})
+		if err != nil {
+			return nil, err
+		}
+		compactCache[sp.Seed] = idx
 	}
-	w, err := buildCompact(fs, 2)
-	if err == nil {
-		compactCache[sp.Seed] = w
-	}
-	return w, err
+	return compact.NewWorldFromData(idx)
 }
 
 func buildCompact(fs []ingest.Feature, cores int) (b6.World, error) {
@@ -354,10 +357,11 @@ func runSpec(sp Spec) string {
 	if err != nil {
 		return "ok" // nothing to query; build failures are C37's subject
 	}
-	want := dumpAll(w, qs)
+	// the concurrent phase comes first, on a world whose lazily filled fields and LRU are still empty; the
+	// sequential pass that provides the expected answers runs afterwards
 	var wg sync.WaitGroup
-	var mu sync.Mutex
-	bad := ""
+	got := make([][]string, sp.G)
+	order := make([][]int, sp.G)
 	for g := 0; g < sp.G; g++ {
 		wg.Add(1)
 		go func(g int) {
@@ -365,14 +369,8 @@ func runSpec(sp Spec) string {
 			r := hx.NewRand(sp.Seed*31 + uint64(g))
 			for round := 0; round < 2; round++ {
 				for _, i := range r.Perm(len(qs)) {
-					got := hx.Recover(func() string { return qs[i].run(w) })
-					if got != want[i] {
-						mu.Lock()
-						if bad == "" {
-							bad = strings.ReplaceAll(qs[i].name, " ", "_")
-						}
-						mu.Unlock()
-					}
+					order[g] = append(order[g], i)
+					got[g] = append(got[g], hx.Recover(func() string { return qs[i].run(w) }))
 				}
 			}
 		}(g)
@@ -384,8 +382,13 @@ func runSpec(sp Spec) string {
 	case <-time.After(60 * time.Second):
 		return "HANG"
 	}
-	if bad != "" {
-		return "mismatch:" + bad
+	want := dumpAll(w, qs)
+	for g := range got {
+		for k, i := range order[g] {
+			if got[g][k] != want[i] {
+				return "mismatch:" + strings.ReplaceAll(qs[i].name, " ", "_")
+			}
+		}
 	}
 	return "ok"
 }
